@@ -218,6 +218,15 @@ func c11Step(c psatoken.IClaims, m *MClaims, o setterOp) (string, bool, bool) {
 	if o.Claim == CSwComps && o.Mode >= 2 && len(o.Comps) == 0 {
 		isClear = true // Add() of nothing / Replace with nothing: no iff verdict
 	}
+	if o.Claim == CSwComps && o.Mode <= 1 && len(o.Comps) == 0 && (o.Mode == 1 || m.Prof == P2) {
+		// the 'clear' operation: whatever it returns, it must leave zero components
+		if sc := anySwContainer(c); sc != nil && !(reflect.ValueOf(sc).Kind() == reflect.Pointer && reflect.ValueOf(sc).IsNil()) && !sc.IsEmpty() {
+			return fmt.Sprintf("%s (an empty component list = clear; returned %v) left components in the claims-set", o, err), false, true
+		}
+		if err != nil {
+			return fmt.Sprintf("%s (an empty component list = clear) failed: %v", o, err), false, true
+		}
+	}
 	if !isClear && (err == nil) != want {
 		if want {
 			return fmt.Sprintf("%s: value is acceptable to the profile's validation but the setter failed: %v", o, err), false, true
